@@ -396,7 +396,10 @@ func main() {
 			}
 		}
 	}
-	for _, rd := range []string{"GetWithLock", "Range", "All"} {
+	// only GetWithLock promises that its callback runs under the lock (name and doc comment); for
+	// Range and All the property asks for one consistent snapshot, which a copy taken under the
+	// lock and handed to the callback afterwards provides as well
+	for _, rd := range []string{"GetWithLock"} {
 		specs = append(specs, ptrScenario(rd+"|Map", rd))
 	}
 	four := [][][]string{
